@@ -87,6 +87,13 @@ CFG = {
             "element, <Suspense>/<Transition> fallback and Suspend children (ready at once / after 1-2 ticks), <Await>, nestings; random wrapper "
             "trees (depth 3) in all three modes; for these the observable is the parsed document modulo sibling markers (comments dropped, adjacent "
             "text merged), for the out-of-order stream both the first paint and the settled document; "
+            "round 5: every VARIANT of the enum value types (Cow Owned / Borrowed, Oco Owned / Borrowed / Counted, TextProp from literal / "
+            "String / closure) as text child, attribute value (plain and Option), class, style, style:name=value, also on <Html/>/<Body/>; "
+            "atoms made of character references only (&lt; &gt; &#38; `5 &lt; 6 &amp; so on`, no < > quote or line feed) and url() / "
+            "query-string / quote style values; the style attribute as one merged string (atom in `style=` next to a url() in `style:x=` and "
+            "the reverse, url(atom), class starting with `url(`); <textarea> (String / Oco::Borrowed / closure / Vec child, leading LF), <title> "
+            "and an element with every attribute kind directly in the in-order and out-of-order streams, textareas in <Suspense> children / "
+            "fallback / <Show>; random wrapper trees now contain textareas with arbitrary strings; "
             "then seeded random view trees to depth 4 over 24 container tags + custom elements + 12 void + 5 raw-text/RCDATA "
             "elements with 0-3 attributes of 8 kinds (random value type per position) per element, children = typed strings, primitives, "
             "containers (random kind x item type, nested), (), elements; strings drawn from the hostile alphabet / arbitrary scalar "
